@@ -72,6 +72,12 @@ func runSyntax(c *Ctx) {
 		strSeqs(c03BytesSm, 7, func(p []string) { do(strings.Join(p, "")) })
 		c.Note("space (i) deep", fmt.Sprintf("all strings of length 6 and 7 over %q", c03BytesSm))
 	}
+	for _, pre := range c03Prefixes {
+		for n := 1; n <= 3; n++ {
+			strSeqs(c03HighBytes, n, func(p []string) { do(pre + strings.Join(p, "")) })
+		}
+	}
+	c.Note("space (iv)", fmt.Sprintf("prefixes %q followed by every string of length <= 3 over the bytes %q", c03Prefixes, c03HighBytes))
 	maxLex := 5
 	if c.Thorough() {
 		maxLex = 6
